@@ -785,6 +785,7 @@ class TermCanvas(Canvas):
             else:
                 y += 1
 
+        self.is_rotten_cursor = False
         self.set_term_cursor(x, y)
 
     def carriage_return(self) -> None:
